@@ -1,6 +1,7 @@
 package main
 
 import (
+	"os"
 	"go/token"
 	"strings"
 
@@ -18,6 +19,24 @@ func init() {
 const cachePkg = "pkg/cache"
 
 func runC20(c *Ctx) {
+	c.rule("C20-R7", "PAIR: every Lock/RLock of the cache's mutexes is released on every path to a return (explicit Unlock on the path, or a deferred one): no operation can return holding the lock, so every operation returns and none blocks forever whatever the value size or configuration")
+	c.Sites["C20-R7#acquire-sites"] = lockReleaseAudit(c, "C20-R7", []string{"pkg/cache"})
+	c.floor("C20-R7", 6)
+	if os.Getenv("GV_DEBUG_LOCKS") != "" {
+		lockReleaseAudit(c, "DBG", c.modulePkgs())
+		for _, o := range c.Obs {
+			if o.Rule == "DBG" && o.Verdict == "violated" {
+				println("DBG", o.Construct, o.Pos)
+			}
+		}
+		var keep []*Obligation
+		for _, o := range c.Obs {
+			if o.Rule != "DBG" {
+				keep = append(keep, o)
+			}
+		}
+		c.Obs = keep
+	}
 	// R1: lockset
 	c.rule("C20-R1", "LCK: LRUCache.items, .evictList (every container/list call through it; MoveToFront/Remove/PushFront/Init are writes) and .currentSize are accessed only with LRUCache.mu held, writes with the exclusive lock; helpers (evictOldest, removeElement) only reachable with the lock held")
 	cls := cachePkg + ".LRUCache.mu"
